@@ -49,6 +49,7 @@ func runDir(files map[string]string, order []string, ops []string) string {
 		pauseAfter, _ = strconv.Atoi(ops[0][6:])
 		ops = ops[1:]
 	}
+	wantPause := pauseAfter >= 0 // read here: the collector below resets pauseAfter
 	paused := make(chan struct{})
 	resume := make(chan struct{})
 	go func() {
@@ -93,7 +94,7 @@ func runDir(files map[string]string, order []string, ops []string) string {
 		}
 	}
 	event := func(op fsnotify.Op) bool { return send(op) && send(fsnotify.Chmod) }
-	if pauseAfter >= 0 {
+	if wantPause {
 		select {
 		case <-paused:
 			// the start-up read is stuck handing over its next line (or has finished): an event, no change
@@ -122,6 +123,12 @@ func runDir(files map[string]string, order []string, ops []string) string {
 			break
 		}
 		switch {
+		case strings.HasPrefix(op, "fa:"), strings.HasPrefix(op, "fo:"):
+			// an append whose first read attempt fails with a transient error (the first Read, or the Open): the reader
+			// retries with its back-off; the barrier event waits for the retry
+			vfs.Set(vmain, append(append([]byte(nil), vfs.Get(vmain)...), []byte(unhex(op[3:]))...))
+			vfs.Arm(op[1] == 'o')
+			event(fsnotify.Write)
 		case strings.HasPrefix(op, "a:"):
 			vfs.Set(vmain, append(append([]byte(nil), vfs.Get(vmain)...), []byte(unhex(op[2:]))...))
 			event(fsnotify.Write)
